@@ -80,6 +80,7 @@ var importDirStyles = [][]string{
 	{".", "a", "a/b", "c", "a", "C"}, // style 4: files and directories whose paths differ only in letter case
 	{".", "conf", "conf", "conf", "conf/sub", "conf"},                 // style 5: most files share one directory
 	{".", "env[prod]", "env[prod]/b*", "c?x", "env[prod]", "c?x/[d]"}, // style 6: names made of the characters of glob patterns
+	importDirs, // style 7: plain names; every directory has a symbolic link `self` to itself, and every second import is written through it
 }
 
 func (s impSpec) dirOf(i int) string { return importDirStyles[s.style][i] }
@@ -164,6 +165,9 @@ func (s impSpec) line() string {
 func (s impSpec) materialise(root string) {
 	for i := 0; i < s.n; i++ {
 		os.MkdirAll(filepath.Join(root, s.dirOf(i)), 0755)
+		if s.style == 7 {
+			os.Symlink(".", filepath.Join(root, s.dirOf(i), "self"))
+		}
 	}
 	for i := 0; i < s.n; i++ {
 		if i == s.broken && s.kind == "missing" {
@@ -195,6 +199,13 @@ func (s impSpec) materialise(root string) {
 				continue
 			}
 			rel, _ := filepath.Rel(filepath.Dir(s.file(root, i)), s.file(root, j))
+			if s.style == 7 && (i+j+len(imps))%2 == 1 && !strings.HasPrefix(rel, "..") {
+				// the same file under another name: through the link of the importing file's directory to itself
+				rel = filepath.Join("self", rel)
+				if (i+j)%3 == 0 {
+					rel = filepath.Join("self", rel)
+				}
+			}
 			imps = append(imps, rel)
 		}
 		if s.isRemote(i) {
@@ -741,6 +752,27 @@ func runC17(col *Collector, tier string, seed int64) {
 		}
 		specs = append(specs, s)
 		tags = append(tags, "glob-character-names")
+	}
+	// the same file imported under several names (through a symbolic link of a directory to itself): it is one file
+	for n := 1; n <= 3; n++ {
+		for mask := 0; mask < 1<<uint(n*n); mask++ {
+			if n == 3 && mask%4 != 1 {
+				continue
+			}
+			edges := make([][]int, n)
+			for i := 0; i < n; i++ {
+				for j := 0; j < n; j++ {
+					if mask&(1<<uint(i*n+j)) != 0 {
+						edges[i] = append(edges[i], j)
+						if (mask+i+j)%3 == 0 {
+							edges[i] = append(edges[i], j) // the same file twice in one list, under two names
+						}
+					}
+				}
+			}
+			specs = append(specs, impSpec{n: n, edges: edges, broken: -1, dirImp: -1, style: 7})
+			tags = append(tags, "same-file-under-several-names")
+		}
 	}
 	// ... and such a directory imported as a directory
 	for k := 0; k < 8; k++ {
